@@ -418,6 +418,7 @@ func (e *c02Env) check(t *rapid.T, data []byte, m *c02Meta, doFlush bool) {
 			t.Fatalf("VERIF-FAIL class=C02/panic-mismatch payload=%s typed panic=%q generic panic=%q", hx, pT, pG)
 		}
 		verifkit.Class("both-panic")
+		verifkit.Note("both_panic_example", map[string]string{"payload_hex": hx, "panic": pT})
 		return
 	}
 	if hit {
@@ -487,7 +488,11 @@ func TestVerifC02_Differential(t *testing.T) {
 			verifkit.CountExcluded(kfC02DupColNonArray)
 			t.Skip("excluded: duplicate column key with a non-array value")
 		}
-		doFlush := rapid.IntRange(0, 99).Draw(t, "flush") < verifkit.Scale(20, 35)
+		pct := verifkit.Scale(20, 35)
+		if v := os.Getenv("VERIF_C02_FLUSHPCT"); v != "" {
+			fmt.Sscan(v, &pct)
+		}
+		doFlush := rapid.IntRange(0, 99).Draw(t, "flush") < pct
 		e.check(t, data, m, doFlush)
 	})
 }
